@@ -263,6 +263,23 @@ Definition get_key_of (c : call) : option key :=
   | _ => None
   end.
 
+(* the key under which a call may store its record: the key it was asked to
+   store under, which must also be the record's own key *)
+Definition call_put_key (c : call) : option key :=
+  match c with
+  | CPut k rk _ => if key_eqb k rk then Some k else None
+  | CHandlePut (x :: mk) (Some (rk, _)) => if key_eqb (x :: mk) rk then Some rk else None
+  | CLocalPut k _ => Some k
+  | _ => None
+  end.
+Definition call_value (c : call) : option N :=
+  match c with
+  | CPut _ _ v | CHandlePut _ (Some (_, v)) | CLocalPut _ v => Some v
+  | _ => None
+  end.
+Definition may_write (c : call) (k : key) : bool :=
+  match call_put_key c with Some k' => key_eqb k k' | None => false end.
+
 Definition is_rec (r : result) : bool := match r with RRec _ _ _ => true | _ => false end.
 
 (* a PutValue whose first read found a live, different value that Select prefers *)
@@ -291,7 +308,7 @@ Fixpoint monitor (d : store) (now : N) (ti : list (tid * tinfo)) (evs : list hev
           | Some i =>
               match ti_pend i, o with
               | Some (_, k), HPut b =>
-                  good_b now k b && not_downgrade k (ds_get k d) b
+                  may_write (ti_call i) k && good_b now k b && not_downgrade k (ds_get k d) b
                   && monitor (ds_put k b d) now
                        (ti_set t {| ti_call := ti_call i; ti_pend := None; ti_read := ti_read i;
                                     ti_wrote := Some (k, b) |} ti) rest
@@ -325,8 +342,8 @@ Fixpoint monitor (d : store) (now : N) (ti : list (tid * tinfo)) (evs : list hev
                   then match r with RErr _ => true | _ => false end else true)
               && match r with
                  | ROk => match ti_wrote i with
-                          | Some (k, b) => opt_bytes_eqb (ds_get k d) (Some b)
-                          | None => false
+                          | Some (_, BRec _ v _) => opt_N_eqb (Some v) (call_value (ti_call i))
+                          | _ => false
                           end
                  | _ => true
                  end
@@ -341,9 +358,9 @@ End Replay.
 
 (* 0: model and implementation agree and the property holds on the trace.
    2: the recorded trace breaks the property (invalid / mis-keyed / downgrading
-      write, deletion of a live record, expired or mis-keyed record served,
+      write, a write under another key than the one requested, deletion of a live record, expired or mis-keyed record served,
       stored live record not served, PutValue not refused, acknowledgement
-      without the record in the store), or the implementation read / wrote /
+      without having written the record), or the implementation read / wrote /
       returned something else than the proved model.
    1: they differ on something the property does not speak about (which error,
       order of arrival at a lock, a call that did not finish). *)
@@ -367,3 +384,8 @@ Definition verdicts := verdicts_from 0.
 (* short names used by the generated case files *)
 Definition R (k : key) (v : N) (ts : N) : bytes := BRec k v (Some ts).
 Definition Rn (k : key) (v : N) : bytes := BRec k v None.
+
+Definition Ka : key := [47; 118; 47; 97; 49].    (* "/v/a1" *)
+Definition Kb : key := [47; 118; 47; 98; 49].    (* "/v/b1", same stripe as Ka *)
+Definition Kc : key := [47; 118; 47; 99; 50].    (* "/v/c2" *)
+Definition Kw : key := [47; 119; 47; 97; 49].    (* "/w/a1", a namespace without validator *)
